@@ -18,6 +18,11 @@ class Fault(Exception):
     """raised by a catalogue callback when a fault is injected"""
 
 
+class ObsRaise(Exception):
+    """raised by an observing callback (a finally action, a do_action terminal callback): whoever it reaches, the pipeline's
+    resources are released all the same"""
+
+
 class FaultStop(Fault, StopIteration):
     """an injected fault that also is a StopIteration: a user function's exception must never be mistaken for the end of an
     iterator the operator happens to be advancing"""
@@ -28,6 +33,8 @@ class Ctx:
 
     def __init__(self, seed: int, fault_at: Optional[int] = None, hot: bool = False, fault_kind: Optional[str] = None):
         self.fault_cls = FaultStop if fault_kind == "stop" else Fault
+        self.obs_raise_at: Optional[int] = None    # the k-th invocation of an observing callback (do_action terminal callbacks, finally action) raises
+        self.nobs = 0
         from reactivex.testing import TestScheduler
         self.rnd = random.Random(seed)
         self.s = TestScheduler()
@@ -55,6 +62,10 @@ class Ctx:
                     self.ev(e="cb", r=True, o=False)
                     raise self.fault_cls(f"injected at callback #{self.ncb}")
             self.ev(e="cb", r=False, o=obs)
+            if obs:
+                self.nobs += 1
+                if self.obs_raise_at is not None and self.nobs == self.obs_raise_at:
+                    raise ObsRaise(f"observing callback #{self.nobs} raises")
             return f(*a)
         return w
 
